@@ -430,6 +430,7 @@ func Ops() []*core.Op {
 			Signature: func(raw json.RawMessage, impl any) string { return "validate" },
 			Shrink:    shrinkRun,
 		},
+		emptyValidateOp(),
 		{
 			Name: "c06.worst",
 			Doc:  "cloudprovider.Offerings.Compatible / Available().WorstLaunchPrice / WorstLaunchPrice / Cheapest / MostExpensive on generated offerings (spot / on-demand / reserved, price ties, unavailable) and requirements over capacity-type, zone and reservation-id (In, NotIn, Exists, DoesNotExist, Gt, empty sets)",
